@@ -366,6 +366,21 @@ def execute(h):
                     if s is not None and s in model.units:
                         violate('decl', 'duplicate_symbol_accepted', i,
                                 action=act, symbol=s)
+                if act['a'] == 'derive_unit' and act['sym'] is None and \
+                        info.get('sym') is not None:
+                    # "generated based on args": the unit is found under a
+                    # symbol made of the symbols of the units it was
+                    # derived from, not of some other units (judged for
+                    # plain alphanumeric symbols: a composite symbol may be
+                    # taken apart when it is rendered inside another one)
+                    lost = [s for s, (_b, e) in zip(
+                        act['units'], model.types[act['type']]['items'])
+                        if e and s.isalnum() and s not in info['sym']]
+                    bump(probes, 'generated_unit_symbol')
+                    if lost:
+                        violate('directory', 'generated_symbol_names_other_'
+                                'units', i, action=act, symbol=info['sym'],
+                                missing=lost)
                 if act['a'] == 'currency_reg' and not info.get('same', True):
                     violate('directory', 'currency_reregistered_other_object',
                             i, code=act['code'])
